@@ -26,12 +26,14 @@
 (***************************************************************************)
 EXTENDS Integers, Sequences, TLC
 
-CONSTANTS Shapes,     \* set of streams: sequences giving the number of cells of each document
+CONSTANTS FrameSizes, \* command line only: sizes of a frame in output units ..
+          OutBufs,    \* .. and capacities of the buffered writer between xt's translator and the descriptor
+          Shapes,     \* set of streams: sequences giving the number of cells of each document
           B,          \* packet / buffer capacity in cells
           RFaults,    \* set of cell offsets at which the reader may start failing (-1: never)
           WFaults     \* set of frame numbers at which the writer may start failing (-1: never)
 
-VARIABLE cfg          \* [fmt, cells, detect]: the scenario, fixed by Init
+VARIABLE cfg          \* [fmt, cells, detect, fs, ob]: the scenario, fixed by Init
 Fmt == cfg.fmt        \* "json" | "msgpack" | "yaml"
 DocCells == cfg.cells
 Detect == cfg.detect  \* the call starts with format detection
@@ -67,7 +69,7 @@ DetectSatisfied == Releasable(spos, eofSeen) >= 1 \/ eofSeen
 NoEv == [ev |-> "none"]
 
 Init ==
-  /\ cfg \in [fmt : {"json", "msgpack", "yaml"}, cells : Shapes, detect : BOOLEAN]
+  /\ cfg \in [fmt : {"json", "msgpack", "yaml"}, cells : Shapes, detect : BOOLEAN, fs : FrameSizes, ob : OutBufs]
   /\ spos = 0 /\ written = 0 /\ eofSeen = FALSE /\ rHit = FALSE /\ wHit = FALSE
   /\ phase = IF Detect THEN "detect" ELSE "translate"
   /\ rfault \in RFaults /\ wfault \in WFaults
@@ -130,7 +132,31 @@ NeverAhead == written <= CompleteDocs(spos)
 \* C12: a fault that was hit is never success
 FaultsAreErrors == (rHit \/ wHit) => phase # "ok"
 ErrHasCause == phase = "err" => (rHit \/ wHit)
-PInv == LagBounded /\ LagTight /\ AllWritten /\ NeverAhead /\ FaultsAreErrors /\ ErrHasCause
+(***************************************************************************)
+(* The command line puts a buffered writer of capacity ob between the      *)
+(* translator and standard output (main.rs: BufWriter, flushed after each  *)
+(* input).  The serializers write small pieces, so the buffer is flushed   *)
+(* whole whenever the next piece does not fit: with u units written,       *)
+(* ob * ((u - 1) \div ob) of them have reached the descriptor.  A frame is  *)
+(* visible downstream once its last unit has.  What an observer of stdout  *)
+(* sees therefore lags by at most Ceil(ob / fs) further frames - one, when *)
+(* a frame is at least as large as the buffer (the situation the           *)
+(* command-line streaming check of C05 sets up: 17 KB frames, 8 KiB        *)
+(* buffer, hence its bound of 3).                                          *)
+(***************************************************************************)
+OutUnits == written * cfg.fs
+Flushed == IF phase \in {"ok", "err"} THEN OutUnits          \* the final flush (per input / at exit)
+           ELSE IF OutUnits = 0 THEN 0 ELSE cfg.ob * ((OutUnits - 1) \div cfg.ob)
+Visible == Flushed \div cfg.fs
+CeilDiv(a, b) == (a + b - 1) \div b
+CliLagBounded == ReadEnabled => CompleteDocs(spos) - Visible <= 2 + CeilDiv(cfg.ob, cfg.fs)
+CliLagOneMore == (ReadEnabled /\ cfg.fs >= cfg.ob) => CompleteDocs(spos) - Visible <= 3
+\* what the design actually has behind a buffer no larger than a frame: one frame more than LagTight
+CliLagTight == (ReadEnabled /\ phase = "translate" /\ cfg.fs >= cfg.ob) =>
+                  CompleteDocs(spos) - Visible <= (IF Fmt = "yaml" THEN 1 ELSE 0) + 1
+CliNothingLost == phase = "ok" => Visible = NDocs
+
+PInv == LagBounded /\ LagTight /\ AllWritten /\ NeverAhead /\ FaultsAreErrors /\ ErrHasCause /\ CliLagBounded /\ CliLagOneMore /\ CliLagTight /\ CliNothingLost
 
 (***************************************************************************)
 (* Refinement: every step of the pipeline is a step of the observable      *)
